@@ -9,6 +9,7 @@ import (
 	"fmt"
 	"math"
 	"os"
+	"runtime/debug"
 	"strings"
 	"sync"
 	"testing"
@@ -70,7 +71,11 @@ func c12Boundaries(fd protoreflect.FieldDescriptor, top bool) []c12LV {
 	case protoreflect.StringKind:
 		out := append([]c12LV{}, c12StrBoundaries...)
 		if top {
-			out = append(out, c12LV{"len2097151", C12Val{S: "z", R: 2097151}}, c12LV{"len2097152", C12Val{S: "z", R: 2097152}})
+			// 3- to 4-byte length prefix; 2 MiB per case, so the quick tier takes one side only
+			if ev.Thorough() {
+				out = append(out, c12LV{"len2097151", C12Val{S: "z", R: 2097151}})
+			}
+			out = append(out, c12LV{"len2097152", C12Val{S: "z", R: 2097152}})
 		}
 		return out
 	case protoreflect.BytesKind:
@@ -606,7 +611,12 @@ func runC12Counted(c C12Case) ev.Outcome {
 	return o
 }
 
+// c12TuneGC: the live heap of these tests is tiny while single cases allocate up to a few
+// MiB (long strings), so the default GC target makes the collector run almost per case.
+func c12TuneGC() { debug.SetGCPercent(1600) }
+
 func TestProp_C12(t *testing.T) {
+	c12TuneGC()
 	ev.Get("C12").NoJournal()
 	c12SelfCheck(t)
 	ev.Run(t, "C12", genC12, runC12Counted)
@@ -636,6 +646,7 @@ func TestProp_C12(t *testing.T) {
 // boundary value of its kind / shape, sub-messages one more level down; plus empty, fully
 // populated and all-empty messages.
 func TestExh_C12(t *testing.T) {
+	c12TuneGC()
 	r := ev.Get("C12")
 	r.NoJournal()
 	defer r.Flush()
